@@ -1,6 +1,6 @@
 (** C10 — Backward tracking = forward tracking in the time-mirrored, sign-flipped flow. *)
 From Coq Require Import ZArith QArith List Bool.
-From Ladim Require Import Base.Num Model.Time Model.Sim Proofs.TimeProofs Proofs.SimProofs Proofs.SymmetryProofs.
+From Ladim Require Import Base.Num Model.Time Model.Sim Proofs.TimeProofs Proofs.SimProofs Proofs.SymmetryProofs Model.Release Proofs.MirrorReleaseProofs.
 Import ListNotations.
 Open Scope Z_scope.
 
@@ -30,6 +30,15 @@ Print Assumptions C10_mirror_window.
 Theorem C10_lerp_sign_flip : forall a fa b fb x, (~ b - a == 0 -> lerp a (- fa) b (- fb) x == - lerp a fa b fb x)%Q.
 Proof. exact lerp_neg. Qed.
 Print Assumptions C10_lerp_sign_flip.
+
+(** T2 for the releaser (discrete release, cold or warm start): with every release time mirrored, the
+    forward set-up over the mirrored axis is refused iff the reversed one is, keeps the (mirrored) rows in
+    the same groups in the same order, and computes the SAME list of release steps — so with C04 each row
+    is released at its stated time in both, at the same step *)
+Theorem C10_release_schedule_mirror : forall t warm tab,
+  rel_init (mirror_tk t) None warm (map (mirror_row t) tab) = mirror_res t (rel_init t None warm tab).
+Proof. exact rel_init_mirror. Qed.
+Print Assumptions C10_release_schedule_mirror.
 
 (** T4 (bisimulation): the two set-ups compile to the same step-indexed environment (T2, T3 with C03 and
     C04), and runs with equal environments are equal state for state and record for record *)
